@@ -244,9 +244,11 @@ inductive FilterStep where
 
 def filterOne (c : Ctx) (o : Obj) (t : DateTrack) (a : TAttr) : R FilterStep := do
   if !(← c.isApplicable a.name o.otype) then pure .fail else
-  match (← getAttr o a.name) with
-  | none => pure (.pass t)
-  | some got =>
+  -- `except AttributeError`: an object that does not carry the attribute cannot match
+  match getAttr o a.name with
+  | .error _ => pure .fail
+  | .ok none => pure (.pass t)
+  | .ok (some got) =>
     let ok (b : Bool) : R FilterStep := pure (if b then .pass t else .fail)
     if a.name == "Application Specific Information" then
       match a.value, got with
